@@ -4,6 +4,10 @@ import (
 	"bytes"
 	stdjson "encoding/json"
 	"fmt"
+	"reflect"
+	"sort"
+	"strconv"
+	"time"
 	"unicode/utf8"
 
 	gojson "github.com/goccy/go-json"
@@ -209,4 +213,356 @@ func runC17(o *Out) {
 		c17Enc(o, fs[0], fs[1], string(bs), i < 3000)
 	}
 	runC17Decode(o)
+	// audit wave 6 strata (after the older ones, whose random inputs stay what they were)
+	t0 := time.Now()
+	c17EncStrata(o)
+	t1 := time.Now()
+	c17DecStrata(o)
+	o.Notes = append(o.Notes, fmt.Sprintf("audit strata: encode %.1fs decode %.1fs", t1.Sub(t0).Seconds(), time.Since(t1).Seconds()))
+}
+
+// ---------------------------------------------------------------------------
+// audit wave 6: additional strata (see the notes of audit A6)
+// ---------------------------------------------------------------------------
+
+// c17CanonBytes rewrites the two escapes encoding/json spells with a letter and
+// go-json with \u00XX; backslashes occur only inside string tokens, so the walk is
+// valid for a whole JSON text.
+func c17CanonBytes(in []byte) []byte {
+	out := make([]byte, 0, len(in)+8)
+	for i := 0; i < len(in); i++ {
+		if in[i] == '\\' && i+1 < len(in) {
+			switch in[i+1] {
+			case 'b':
+				out = append(out, `\u0008`...)
+			case 'f':
+				out = append(out, `\u000c`...)
+			default:
+				out = append(out, in[i], in[i+1])
+			}
+			i++
+			continue
+		}
+		out = append(out, in[i])
+	}
+	return out
+}
+
+type c17Named string
+
+// c17TextM hands its bytes to the encoder as text (value and map key) and takes them back
+type c17TextM string
+
+func (t c17TextM) MarshalText() ([]byte, error)  { return []byte(t), nil }
+func (t *c17TextM) UnmarshalText(b []byte) error { *t = c17TextM(b); return nil }
+
+// every place a Go string is written as a JSON string literal
+type c17Pos struct {
+	F string           `json:"f"`
+	Q string           `json:"q,string"`
+	O string           `json:"o,omitempty"`
+	P *string          `json:"p"`
+	N c17Named         `json:"n"`
+	T c17TextM         `json:"t"`
+	I interface{}      `json:"i"`
+	L []string         `json:"l"`
+	M map[string]int   `json:"m"`
+	K map[c17TextM]int `json:"k"`
+	E string           `json:"e"`
+}
+
+// the same members for the oracle: the ,string payload is written out as encoding/json
+// quotes it once (with the two tolerated spellings already rewritten), so that its
+// second quoting is comparable byte by byte
+type c17PosStd struct {
+	F string           `json:"f"`
+	Q string           `json:"q"`
+	O string           `json:"o,omitempty"`
+	P *string          `json:"p"`
+	N c17Named         `json:"n"`
+	T c17TextM         `json:"t"`
+	I interface{}      `json:"i"`
+	L []string         `json:"l"`
+	M map[string]int   `json:"m"`
+	K map[c17TextM]int `json:"k"`
+	E string           `json:"e"`
+}
+
+func c17StdOf(v c17Pos, html bool) c17PosStd {
+	return c17PosStd{F: v.F, Q: string(stdCanon(html, v.Q)), O: v.O, P: v.P, N: v.N, T: v.T, I: v.I, L: v.L, M: v.M, K: v.K, E: v.E}
+}
+
+func c17PosOf(s string) c17Pos {
+	p := s
+	return c17Pos{F: s, Q: s, O: s, P: &p, N: c17Named(s), T: c17TextM(s), I: s, L: []string{s, s},
+		M: map[string]int{s: 1}, K: map[c17TextM]int{c17TextM(s): 2}, E: s}
+}
+
+func c17Opts(html, norm bool) []gojson.EncodeOptionFunc {
+	var opts []gojson.EncodeOptionFunc
+	if !html {
+		opts = append(opts, gojson.DisableHTMLEscape())
+	}
+	if !norm {
+		opts = append(opts, gojson.DisableNormalizeUTF8())
+	}
+	return opts
+}
+
+type c17Entry struct {
+	name   string
+	indent bool
+	goj    func(v interface{}, html, norm bool) ([]byte, error)
+}
+
+var c17Entries = []c17Entry{
+	{"MarshalWithOption", false, func(v interface{}, html, norm bool) ([]byte, error) {
+		return gojson.MarshalWithOption(v, c17Opts(html, norm)...)
+	}},
+	{"MarshalIndentWithOption", true, func(v interface{}, html, norm bool) ([]byte, error) {
+		return gojson.MarshalIndentWithOption(v, "", " ", c17Opts(html, norm)...)
+	}},
+	{"Encoder", false, func(v interface{}, html, norm bool) ([]byte, error) {
+		var b bytes.Buffer
+		e := gojson.NewEncoder(&b)
+		e.SetEscapeHTML(html)
+		var opts []gojson.EncodeOptionFunc
+		if !norm {
+			opts = append(opts, gojson.DisableNormalizeUTF8())
+		}
+		err := e.EncodeWithOption(v, opts...)
+		return bytes.TrimSuffix(b.Bytes(), []byte("\n")), err
+	}},
+	{"Encoder+SetIndent", true, func(v interface{}, html, norm bool) ([]byte, error) {
+		var b bytes.Buffer
+		e := gojson.NewEncoder(&b)
+		e.SetEscapeHTML(html)
+		e.SetIndent("", " ")
+		var opts []gojson.EncodeOptionFunc
+		if !norm {
+			opts = append(opts, gojson.DisableNormalizeUTF8())
+		}
+		err := e.EncodeWithOption(v, opts...)
+		return bytes.TrimSuffix(b.Bytes(), []byte("\n")), err
+	}},
+}
+
+func c17StdEncode(v interface{}, html, indent bool) []byte {
+	var b bytes.Buffer
+	e := stdjson.NewEncoder(&b)
+	e.SetEscapeHTML(html)
+	if indent {
+		e.SetIndent("", " ")
+	}
+	e.Encode(v)
+	return c17CanonBytes(bytes.TrimSuffix(b.Bytes(), []byte("\n")))
+}
+
+// c17EncPositions: the string as struct member, ,string payload (quoted twice),
+// omitempty member, behind a pointer, as a named type, as MarshalText result, inside
+// interface{}, as slice element, as map key and as MarshalText map key, through Marshal,
+// MarshalIndent and the Encoder with and without SetIndent, under the four flag sets.
+func c17EncPositions(o *Out, s string) {
+	v := c17PosOf(s)
+	want := c17PosOf(sanitize(s))
+	c17PosCalls++
+	for fi, fs := range [][2]bool{{true, true}, {true, false}, {false, true}, {false, false}} {
+		html, norm := fs[0], fs[1]
+		for ei, en := range c17Entries {
+			// Marshal always, the other three entry points in turn (all of them in the thorough tier)
+			if ei > 0 && o.tier != "thorough" && (c17PosCalls+fi)%3 != ei-1 {
+				continue
+			}
+			got, err := c01Safe(func() ([]byte, error) { return en.goj(v, html, norm) })
+			o.count("encode_position_cases", 1)
+			o.hist("encode_position_entry", en.name)
+			fail := func(what string, more ...string) {
+				det := map[string]string{"s": fmt.Sprintf("%q", s), "entry": en.name, "html": fmt.Sprint(html), "normalize": fmt.Sprint(norm),
+					"out": fmt.Sprintf("%q", got), "err": fmt.Sprint(err)}
+				for i := 0; i+1 < len(more); i += 2 {
+					det[more[i]] = more[i+1]
+				}
+				o.violation("C17", what, det)
+			}
+			if err != nil {
+				fail("encoding a struct of strings failed")
+				continue
+			}
+			// the statement itself: any conforming parser reads the original back from every position
+			var back c17Pos
+			if e := stdjson.Unmarshal(got, &back); e != nil {
+				fail("output with the string in every position is not decodable by encoding/json", "decode_err", e.Error())
+				continue
+			}
+			if !reflect.DeepEqual(back, want) {
+				fail("a position does not decode to the original string", "back", fmt.Sprintf("%+v", back))
+				continue
+			}
+			for _, c := range got {
+				if c < 0x20 && !(en.indent && c == '\n') {
+					fail("raw control character in the output")
+					break
+				}
+			}
+			if html && (bytes.ContainsAny(got, "<>&") || bytes.Contains(got, []byte("\u2028")) || bytes.Contains(got, []byte("\u2029"))) {
+				fail("raw HTML-special character with escaping on")
+			}
+			if norm {
+				if !utf8.Valid(got) {
+					fail("output not valid UTF-8 with normalisation on")
+				}
+				if w := c17StdEncode(c17StdOf(v, html), html, en.indent); !bytes.Equal(got, w) {
+					fail("string positions encoded differently from encoding/json", "oracle", fmt.Sprintf("%q", w))
+				}
+			}
+		}
+	}
+}
+
+var c17PosCalls int
+
+// member names are escaped when the type is compiled (once with and once without HTML
+// escaping), not by the code that escapes values
+var c17KeyNames = []string{"a<b", "x&y", ">", "é", "日本語", "a b", "€<", "<>&<>&<>&", "abcdefg<", "abcdefgh<", "abcdefghijklmnop&", "a/b", "a.b-c_d", "ключ", "𝛂"}
+
+func c17EncKeys(o *Out) {
+	fs := make([]reflect.StructField, len(c17KeyNames))
+	for i, n := range c17KeyNames {
+		fs[i] = reflect.StructField{Name: fmt.Sprintf("F%d", i), Type: reflect.TypeOf(""), Tag: reflect.StructTag(fmt.Sprintf(`json:%q`, n))}
+	}
+	// the same names in reverse order: each is first member once and last member once
+	rs := make([]reflect.StructField, len(fs))
+	for i := range fs {
+		rs[i] = fs[len(fs)-1-i]
+	}
+	for _, t := range []reflect.Type{reflect.StructOf(fs), reflect.StructOf(rs), reflect.StructOf(fs[:1]), reflect.StructOf(fs[7:8])} {
+		v := reflect.New(t).Elem()
+		for i := 0; i < v.NumField(); i++ {
+			v.Field(i).SetString("<v&" + strconv.Itoa(i) + ">")
+		}
+		for _, x := range []interface{}{v.Interface(), v.Addr().Interface(), []interface{}{v.Interface()}} {
+			for _, flags := range [][2]bool{{true, true}, {true, false}, {false, true}, {false, false}} {
+				for _, en := range c17Entries {
+					got, err := c01Safe(func() ([]byte, error) { return en.goj(x, flags[0], flags[1]) })
+					want := c17StdEncode(x, flags[0], en.indent)
+					o.count("encode_key_cases", 1)
+					if err != nil || !bytes.Equal(got, want) {
+						o.violation("C17", "member names escaped differently from encoding/json", map[string]string{"type": t.String(), "entry": en.name,
+							"html": fmt.Sprint(flags[0]), "normalize": fmt.Sprint(flags[1]), "impl": fmt.Sprintf("%q err=%v", got, err), "oracle": fmt.Sprintf("%q", want)})
+					}
+				}
+			}
+		}
+	}
+}
+
+// c17EncStrata: (1) every byte class at every offset counted from the END of the string
+// (the tail after the last full 8-byte word) for the lengths 4..40, which the offsets
+// 0..17 from the start leave out; (2) long strings (several words, several kB, one
+// above 64 kB) with the class at the start, at word borders, in the middle and in the
+// tail, clean before it so that the word-at-a-time scan has to find it; (3) the
+// positions other than a top-level value for a sample of all of these.
+func c17EncStrata(o *Out) {
+	thorough := o.tier == "thorough"
+	flagsets := [][2]bool{{true, true}, {true, false}, {false, true}, {false, false}}
+	fill := []byte("abcdefghijklmnopqrstuvwxyzABCDEFGHIJKLMNOPQRSTUVWXYZ0123456789-_")
+	mk := func(total int) []byte {
+		bs := make([]byte, total)
+		for i := range bs {
+			bs[i] = fill[i%len(fill)]
+		}
+		return bs
+	}
+	npos := 0
+	for ci, cls := range c17Classes {
+		for total := 4; total <= 40; total++ {
+			for back := 0; back <= 9 && back+len(cls) <= total; back++ {
+				off := total - len(cls) - back
+				if off <= 17 {
+					continue // done from the start
+				}
+				bs := mk(total)
+				copy(bs[off:], cls)
+				for _, fs := range flagsets {
+					c17Enc(o, fs[0], fs[1], string(bs), false)
+				}
+				o.count("encode_tail_offset_strings", 1)
+			}
+		}
+		totals := []int{41, 48, 49, 63, 64, 65, 72, 127, 128, 129, 257, 1024, 1025, 4097}
+		if thorough {
+			totals = []int{41, 47, 48, 49, 63, 64, 65, 71, 72, 127, 128, 129, 255, 256, 257, 1023, 1024, 1025, 4095, 4096, 4097}
+		}
+		if ci%8 == 0 || thorough {
+			totals = append(totals, 65536+5)
+		}
+		for _, total := range totals {
+			offs := map[int]bool{0: true, 7: true, 8: true, 9: true, 24: true, total / 2: true, total/2 + 3: true}
+			for back := 0; back <= 9; back++ {
+				offs[total-len(cls)-back] = true
+			}
+			var offl []int
+			for off := range offs {
+				offl = append(offl, off)
+			}
+			sort.Ints(offl)
+			for _, off := range offl {
+				if off < 0 || off+len(cls) > total {
+					continue
+				}
+				bs := mk(total)
+				copy(bs[off:], cls)
+				for _, fs := range flagsets {
+					c17Enc(o, fs[0], fs[1], string(bs), false)
+				}
+				o.count("encode_long_strings", 1)
+				o.hist("encode_long_length", strconv.Itoa(total))
+				if ((off+total+ci)%5 == 0 && total <= 129) || ((off+ci)%16 == 0 && total > 129 && total <= 4097) {
+					c17EncPositions(o, string(bs))
+					npos++
+				}
+			}
+		}
+	}
+	// positions: the empty string, every single byte, every class alone and at the offsets around the first word border
+	c17EncPositions(o, "")
+	for a := 0; a < 256; a++ {
+		c17EncPositions(o, string([]byte{byte(a)}))
+		npos++
+	}
+	for _, cls := range c17Classes {
+		for _, total := range []int{len(cls), 7, 8, 9, 12, 16, 17, 25} {
+			if total < len(cls) {
+				continue
+			}
+			for _, off := range []int{0, 3, 6, 7, 8, total - len(cls)} {
+				if off < 0 || off+len(cls) > total {
+					continue
+				}
+				bs := mk(total)
+				copy(bs[off:], cls)
+				c17EncPositions(o, string(bs))
+				npos++
+			}
+		}
+	}
+	nr := 300
+	if thorough {
+		nr = 30000
+	}
+	for i := 0; i < nr; i++ {
+		n := o.rng.Intn(40)
+		var bs []byte
+		for len(bs) < n {
+			if o.rng.Intn(4) == 0 {
+				bs = append(bs, c17Classes[o.rng.Intn(len(c17Classes))]...)
+			} else {
+				bs = append(bs, fill[o.rng.Intn(len(fill))])
+			}
+		}
+		c17EncPositions(o, string(bs))
+		npos++
+	}
+	o.count("encode_position_strings", int64(npos))
+	c17EncKeys(o)
 }
